@@ -345,7 +345,7 @@ theorem inv_setPodBound (s : State) (id : String × String) (p : Pod) (node : St
 
 theorem bindCommit_spec (s : State) (pod : Pod) (ns name : String) (uid : Nat) (node : String) (ips : List IP) (h : Inv s)
     (hl : Tbl.get s.vPods (ns, name) = some pod)
-    (h1 : ∀ q, Tbl.get s.pods (ns, name) = some q → q.uid = pod.uid)
+    (huid0 : uid ≠ 0) (hluid : pod.uid = uid)
     (hown : ∀ ip, ip ∈ ips → hasKeyUid (keyOf pod) pod.uid (Tbl.get s.alloc ip))
     (hku : ∀ ip r, Tbl.get s.alloc ip = some r → r.key = keyOf pod → r.uid = 0 ∨ r.uid = pod.uid) :
     Inv (bindCommit s pod ns name uid node ips).1 ∧ (bindCommit s pod ns name uid node ips).1.plog = s.plog := by
@@ -376,9 +376,13 @@ theorem bindCommit_spec (s : State) (pod : Pod) (ns name : String) (uid : Nat) (
   · rename_i tp htp
     split
     · exact ⟨h3, p3⟩
-    · refine ⟨?_, p3⟩
+    · rename_i hconf
+      refine ⟨?_, p3⟩
       have htp' : Tbl.get s.pods (ns, name) = some tp := by rw [← q3.frame.pods]; exact htp
-      have hu := h1 tp htp'
+      have hu : tp.uid = pod.uid := by
+        rw [hluid]
+        simp only [ne_eq, not_and, Decidable.not_not] at hconf
+        exact hconf huid0
       have hk := (lsame (ns, name) tp htp' hu).2
       apply inv_setPodBound _ (ns, name) tp node (ips.map (toHInfo s)) h3 htp
       · intro hd hm
@@ -397,110 +401,113 @@ theorem bindCommit_spec (s : State) (pod : Pod) (ns name : String) (uid : Nat) (
         rw [q3.frame.vPods, hl] at hl'
         cases hl'; exact hu.symm
 
-/-- the side condition of `bind`, unpacked -/
-theorem assumed_bind {s : State} {ns name : String} {uid : Nat} {node : String} {ch : Choice} {f pf : Nat} {pod : Pod}
-    (ha : assumed s (.bind ns name uid node ch f pf) = true) (hl : Tbl.get s.vPods (ns, name) = some pod) :
-    (∀ q, Tbl.get s.pods (ns, name) = some q → q.uid = pod.uid) ∧
-    (∀ ip r, Tbl.get s.alloc ip = some r → r.key = keyOf pod → r.uid = 0 ∨ r.uid = pod.uid) := by
-  simp only [assumed, hl, Bool.and_eq_true, List.all_eq_true, Bool.or_eq_true, decide_eq_true_eq, beq_iff_eq] at ha
-  refine ⟨fun q hq => ?_, fun ip r hg hk => ?_⟩
-  · have := ha.1; rw [hq] at this; simpa using this
-  · have := ha.2 (ip, r) (Tbl.get_mem hg)
-    rcases this with (h1 | h1) | h1
-    · exact absurd hk (by simpa using h1)
-    · exact Or.inl h1
-    · exact Or.inr h1
-
-theorem bind_spec (s : State) (ns name : String) (uid : Nat) (node : String) (ch : Choice) (h : Inv s)
-    (hA : ∀ pod, Tbl.get s.vPods (ns, name) = some pod →
-      (∀ q, Tbl.get s.pods (ns, name) = some q → q.uid = pod.uid) ∧
-      (∀ ip r, Tbl.get s.alloc ip = some r → r.key = keyOf pod → r.uid = 0 ∨ r.uid = pod.uid)) :
+theorem bind_spec (s : State) (ns name : String) (uid : Nat) (node : String) (ch : Choice) (h : Inv s) (huid0 : uid ≠ 0) :
     Inv (bind Facts.good s ns name uid node ch).1 ∧
       UnassignsWithin s (bind Facts.good s ns name uid node ch).1 (fun _ => False) := by
   unfold bind
   split
   · exact ⟨h, UnassignsWithin.refl s _⟩
   · rename_i pod hl
-    obtain ⟨h1, h2⟩ := hA pod hl
     obtain ⟨lid, l0, llt, lwf, lsame⟩ := h.lister (ns, name) pod hl
-    -- every live bound pod with the lister pod's key is the API server's pod of that name, hence has its uid
-    have huid : ∀ q, LiveBound s.pods q → keyOf q = keyOf pod → q.uid = pod.uid := by
-      intro q hq hk
-      have wq := (h.podsWF _ q hq.1).2.2.2
-      have := keyOf_inj q pod wq lwf hk
-      have hq1 := hq.1
-      rw [this, lid] at hq1
-      exact h1 q hq1
     split
     · exact ⟨h, UnassignsWithin.refl s _⟩
     · split
       · exact ⟨h, UnassignsWithin.refl s _⟩
-      · rename_i infos hinf
-        have hinfos : infos = byKeyAndRanges s (keyOf pod) pod.ranges ∨ (pod.ranges.isEmpty = true ∧ ¬ infos.isEmpty = true) := by
-          unfold bindInfos at hinf
-          split at hinf
-          · rename_i hc
-            right
-            simp only [Bool.and_eq_true] at hc
-            refine ⟨hc.1, ?_⟩
-            cases hpf : pickFirst (byKeyAndRanges s (keyOf pod) pod.ranges) ch.first with
-            | none => rw [hpf] at hinf; cases hinf
-            | some ip => rw [hpf] at hinf; cases hinf; simp
-          · left; cases hinf; rfl
+      · -- the lister guard did not fire: the lister's pod is the incarnation the scheduler binds
+        rename_i hguard1
+        have hluid : pod.uid = uid := by
+          simp only [good_bindChecksListerUID, Bool.true_and, Bool.and_eq_true, bne_iff_ne, ne_eq, not_and,
+            Decidable.not_not] at hguard1
+          exact hguard1 huid0 l0
         split
         · exact ⟨h, UnassignsWithin.refl s _⟩
-        · have sp := bindAlloc_spec s pod node (policyOf pod) infos ch.pick h.coh hinfos
-          have tA : Touched (keyOf pod) pod.uid s (bindAlloc s pod node
-              { policy := policyOf pod, node := node, uid := pod.uid } infos ch.pick).1 :=
-            sp.chg.touched (fun o ho => Or.inl ho) (fun n hn => hn)
-          have hiA := h.step_of_touched sp.coherent tA huid
+        · rename_i infos hinf
+          have hinfos : infos = byKeyAndRanges s (keyOf pod) pod.ranges ∨ (pod.ranges.isEmpty = true ∧ ¬ infos.isEmpty = true) := by
+            unfold bindInfos at hinf
+            split at hinf
+            · rename_i hc
+              right
+              simp only [Bool.and_eq_true] at hc
+              refine ⟨hc.1, ?_⟩
+              cases hpf : pickFirst (byKeyAndRanges s (keyOf pod) pod.ranges) ch.first with
+              | none => rw [hpf] at hinf; cases hinf
+              | some ip => rw [hpf] at hinf; cases hinf; simp
+            · left; cases hinf; rfl
           split
           · exact ⟨h, UnassignsWithin.refl s _⟩
-          · exact ⟨hiA, UnassignsWithin.of_plog_eq _ sp.plog⟩
-          · rename_i hok
-            have bl := bindLoop_spec (keyOf pod) node { policy := policyOf pod, node := node, uid := pod.uid }
-              (infos.filterMap id) ((bindAlloc s pod node { policy := policyOf pod, node := node, uid := pod.uid } infos
-                ch.pick).2.2.filterMap id) _ sp.coherent
-            have tB : Touched (keyOf pod) pod.uid (bindAlloc s pod node
-                { policy := policyOf pod, node := node, uid := pod.uid } infos ch.pick).1 _ :=
-              bl.2.1.touched (fun o ho => Or.inr ho) (fun n hn => hn)
-            have tAB := tA.trans tB
-            have hiB := h.step_of_touched bl.1 tAB huid
-            have lgB : UnassignsWithin s _ (fun _ => False) := (UnassignsWithin.of_plog_eq _ sp.plog).trans bl.2.2
+          · -- the whole-key UID guard did not fire: no record of another incarnation under the key
+            rename_i hguard2
+            have h2 : ∀ ip r, Tbl.get s.alloc ip = some r → r.key = keyOf pod → r.uid = 0 ∨ r.uid = pod.uid := by
+              intro ip r hg hk
+              simp only [good_bindChecksUID, Bool.true_and, bindGuardIPs, good_bindUidGuardCoversWholeKey, if_true,
+                List.any_eq_true, not_exists, not_and] at hguard2
+              have := hguard2 ip (mem_ipsOfKey_of_get hg hk)
+              rw [hg] at this
+              simp only [Bool.and_eq_true, bne_iff_ne, ne_eq, not_and, Decidable.not_not] at this
+              by_cases h0 : r.uid = 0
+              · exact Or.inl h0
+              · exact Or.inr (this h0)
+            -- hence every live bound pod with this key has the lister pod's uid
+            have huid : ∀ q, LiveBound s.pods q → keyOf q = keyOf pod → q.uid = pod.uid := by
+              intro q hq hk
+              obtain ⟨hd, hmem⟩ := List.exists_mem_of_ne_nil _ hq.2.2
+              obtain ⟨r, g1, g2, g3⟩ := h.safe.own q hq hd hmem
+              have hq0 : q.uid ≠ 0 := (h.podsWF _ q hq.1).2.1
+              rcases h2 hd.ip r g1 (g2.trans hk) with e | e
+              · rw [g3] at e; exact absurd e hq0
+              · rw [← g3]; exact e
+            have sp := bindAlloc_spec s pod node (policyOf pod) infos ch.pick h.coh hinfos
+            have tA : Touched (keyOf pod) pod.uid s (bindAlloc s pod node
+                { policy := policyOf pod, node := node, uid := pod.uid } infos ch.pick).1 :=
+              sp.chg.touched (fun o ho => Or.inl ho) (fun n hn => hn)
+            have hiA := h.step_of_touched sp.coherent tA huid
             split
-            · rename_i hlok
-              -- every address of the binding is stored under (key, uid)
-              have hown : ∀ ip, ip ∈ (bindAlloc s pod node { policy := policyOf pod, node := node, uid := pod.uid } infos
-                  ch.pick).2.2.filterMap id → hasKeyUid (keyOf pod) pod.uid (Tbl.get (bindLoop (bindAlloc s pod node
-                    { policy := policyOf pod, node := node, uid := pod.uid } infos ch.pick).1 (keyOf pod) node
-                    { policy := policyOf pod, node := node, uid := pod.uid } (infos.filterMap id)
-                    ((bindAlloc s pod node { policy := policyOf pod, node := node, uid := pod.uid } infos
-                      ch.pick).2.2.filterMap id)).1.alloc ip) := by
-                intro ip hip
-                rcases sp.ips hok ip hip with hf | hnew
-                · exact bindLoop_found (keyOf pod) node { policy := policyOf pod, node := node, uid := pod.uid }
-                    (infos.filterMap id) _ _ sp.coherent hlok ip hip hf
-                · exact chg_stable bl.2.1 ip hnew
-              -- no record of another incarnation under the key
-              have hku : ∀ ip r, Tbl.get (bindLoop (bindAlloc s pod node
-                    { policy := policyOf pod, node := node, uid := pod.uid } infos ch.pick).1 (keyOf pod) node
-                    { policy := policyOf pod, node := node, uid := pod.uid } (infos.filterMap id)
-                    ((bindAlloc s pod node { policy := policyOf pod, node := node, uid := pod.uid } infos
-                      ch.pick).2.2.filterMap id)).1.alloc ip = some r → r.key = keyOf pod → r.uid = 0 ∨ r.uid = pod.uid := by
-                intro ip r hg hk
-                rcases tAB.recs ip with e | ⟨r', g', _, u', _⟩
-                · rw [e] at hg; exact h2 ip r hg hk
-                · rw [hg] at g'; cases g'; exact Or.inr u'
-              have f := tAB.frame
-              have cm := bindCommit_spec _ pod ns name uid node _ hiB (by rw [f.vPods]; exact hl)
-                (by rw [f.pods]; exact h1) hown hku
-              exact ⟨cm.1, lgB.trans (UnassignsWithin.of_plog_eq _ cm.2)⟩
-            · exact ⟨hiB, lgB⟩
+            · exact ⟨h, UnassignsWithin.refl s _⟩
+            · exact ⟨hiA, UnassignsWithin.of_plog_eq _ sp.plog⟩
+            · rename_i hok
+              have bl := bindLoop_spec (keyOf pod) node { policy := policyOf pod, node := node, uid := pod.uid }
+                (infos.filterMap id) ((bindAlloc s pod node { policy := policyOf pod, node := node, uid := pod.uid } infos
+                  ch.pick).2.2.filterMap id) _ sp.coherent
+              have tB : Touched (keyOf pod) pod.uid (bindAlloc s pod node
+                  { policy := policyOf pod, node := node, uid := pod.uid } infos ch.pick).1 _ :=
+                bl.2.1.touched (fun o ho => Or.inr ho) (fun n hn => hn)
+              have tAB := tA.trans tB
+              have hiB := h.step_of_touched bl.1 tAB huid
+              have lgB : UnassignsWithin s _ (fun _ => False) := (UnassignsWithin.of_plog_eq _ sp.plog).trans bl.2.2
+              split
+              · rename_i hlok
+                have hown : ∀ ip, ip ∈ (bindAlloc s pod node { policy := policyOf pod, node := node, uid := pod.uid } infos
+                    ch.pick).2.2.filterMap id → hasKeyUid (keyOf pod) pod.uid (Tbl.get (bindLoop (bindAlloc s pod node
+                      { policy := policyOf pod, node := node, uid := pod.uid } infos ch.pick).1 (keyOf pod) node
+                      { policy := policyOf pod, node := node, uid := pod.uid } (infos.filterMap id)
+                      ((bindAlloc s pod node { policy := policyOf pod, node := node, uid := pod.uid } infos
+                        ch.pick).2.2.filterMap id)).1.alloc ip) := by
+                  intro ip hip
+                  rcases sp.ips hok ip hip with hf | hnew
+                  · exact bindLoop_found (keyOf pod) node { policy := policyOf pod, node := node, uid := pod.uid }
+                      (infos.filterMap id) _ _ sp.coherent hlok ip hip hf
+                  · exact chg_stable bl.2.1 ip hnew
+                have hku : ∀ ip r, Tbl.get (bindLoop (bindAlloc s pod node
+                      { policy := policyOf pod, node := node, uid := pod.uid } infos ch.pick).1 (keyOf pod) node
+                      { policy := policyOf pod, node := node, uid := pod.uid } (infos.filterMap id)
+                      ((bindAlloc s pod node { policy := policyOf pod, node := node, uid := pod.uid } infos
+                        ch.pick).2.2.filterMap id)).1.alloc ip = some r → r.key = keyOf pod → r.uid = 0 ∨ r.uid = pod.uid := by
+                  intro ip r hg hk
+                  rcases tAB.recs ip with e | ⟨r', g', _, u', _⟩
+                  · rw [e] at hg; exact h2 ip r hg hk
+                  · rw [hg] at g'; cases g'; exact Or.inr u'
+                have f := tAB.frame
+                have cm := bindCommit_spec _ pod ns name uid node _ hiB (by rw [f.vPods]; exact hl) huid0 hluid hown hku
+                exact ⟨cm.1, lgB.trans (UnassignsWithin.of_plog_eq _ cm.2)⟩
+              · exact ⟨hiB, lgB⟩
+
+theorem assumed_bind {s : State} {ns name : String} {uid : Nat} {node : String} {ch : Choice} {f pf : Nat}
+    (ha : assumed s (.bind ns name uid node ch f pf) = true) : uid ≠ 0 := by
+  simpa [assumed] using ha
 
 theorem inv_bind (s : State) (ns name : String) (uid : Nat) (node : String) (ch : Choice) (f pf : Nat) (h : Inv s)
     (ha : assumed s (.bind ns name uid node ch f pf) = true) :
     Inv (step Facts.good s (.bind ns name uid node ch f pf)).1 :=
-  (bind_spec (withFaults s f pf) ns name uid node ch (inv_withFaults s f pf h)
-    (fun pod hl => assumed_bind (s := s) ha hl)).1
+  (bind_spec (withFaults s f pf) ns name uid node ch (inv_withFaults s f pf h) (assumed_bind ha)).1
 
 end Galaxy.Plugin
